@@ -640,9 +640,12 @@ impl Tokenizer {
             offsets.extend(second_seq_offsets);
         }
 
+        // With no limit the window is unbounded. It must not be derived from
+        // the number of tokens, otherwise `overlap` would have to be smaller
+        // than the length of the text.
         let max_tokens_per_chunk = options
             .max_chunk_len
-            .unwrap_or(tokens.len() + non_content_tokens_per_chunk)
+            .unwrap_or(usize::MAX)
             .saturating_sub(non_content_tokens_per_chunk);
 
         if max_tokens_per_chunk == 0 {
@@ -704,9 +707,10 @@ impl Tokenizer {
                 let (first_offsets, second_offsets) = offsets.split_at(first_seq_tokens);
 
                 let first_len = first_tokens.len().min(max_tokens_per_chunk);
-                let second_len = second_tokens.len().min(max_tokens_per_chunk - first_len);
+                // Room left for tokens of the second sequence in each chunk.
+                let second_len = max_tokens_per_chunk - first_len;
 
-                if second_len == 0 {
+                if second_len == 0 || second_tokens.is_empty() {
                     // We can't "consume" tokens from the second sequence in
                     // each chunk, so just return an empty output.
                     return Ok(vec![]);
